@@ -73,6 +73,10 @@ def rand_block(rng: np.random.Generator, w: int) -> Any:
         pool = {1: gen.Q1, 2: gen.Q2, 3: gen.Q3}[k]
         g = pool[int(rng.integers(len(pool)))]
         c.append_gate(g, gen.rand_location(rng, w, k), gen.rand_params(rng, g.num_params, 'generic'))
+    if rng.random() < 0.5:  # a cancellable pair for the shrinking body
+        q = int(rng.integers(w))
+        c.append_gate(gen.Q1[0], q)
+        c.append_gate(gen.Q1[0], q)
     return c
 
 
@@ -115,7 +119,7 @@ def rand_body(rng: np.random.Generator, allow_fail: bool) -> list[list[Any]]:
     for _ in range(int(rng.choice([1, 1, 2]))):
         k = str(rng.choice(kinds))
         if k == 'perturb':
-            arg: Any = float(rng.choice([1e-6, 1e-5, 1e-4, 1e-3, 1e-2, 0.3]))
+            arg: Any = float(rng.choice([1e-6, 1e-5, 1e-4, 1e-3, 1e-2]))
         else:
             arg = int(rng.integers(0, 4))
         out.append([k, arg])
